@@ -191,5 +191,19 @@ CLAIMS["C10"] = {
     "technique": "write-sink inventory + path provenance + typestate of the placeholder writer by specialisation",
     "ref": "DESIGN.md section 5 C10",
 }
+CLAIMS["C16"] = {
+    "text": "Decides the preconditions of 'generation is a pure function of the model': an inventory of every attribute store, "
+            "subscript store, delete and mutating method call in the three generator modules, each classified by an "
+            "inter-procedural provenance analysis as fresh / generator state / serialised copy / model (any write to a model "
+            "object is reported; one is a known finding); every to_dict the generator consumes returns only immutable values, "
+            "fresh containers and nested to_dict results, so in-place edits of type dictionaries cannot reach the model; every "
+            "instance field of the generator is assigned a scope and checked for re-initialisation before use (module scope in "
+            "__call__ and per re-exported element, declaration scope before the methods are rendered, generation scope never - "
+            "three known findings); no memo cache is under-keyed. Equality of the texts of two generations is relational and "
+            "is not decided; the second CLI run into one directory is covered by C10.WRITE-MODE.",
+    "note": TRUST,
+    "technique": "effect inventory with provenance classes + escape analysis of to_dict + reset-before-use analysis of generator fields",
+    "ref": "DESIGN.md section 5 C16",
+}
 
 NOT_APPLICABLE = {}
